@@ -22,14 +22,29 @@ class Unmodelled(Exception):
     pass
 
 
+# aggregate function names of the twelve engines (upper case, as function names are interned): Model/SqlScopeX.v recognises an
+# aggregate call by its id lying in [agg_lo, agg_hi] = [2, 40]
+AGGREGATES = ["COUNT", "SUM", "MIN", "MAX", "AVG", "STDDEV", "STDDEV_SAMP", "STDDEV_POP", "VARIANCE", "VAR_SAMP", "VAR_POP", "EVERY", "BOOL_AND",
+              "BOOL_OR", "ANY_VALUE", "STRING_AGG", "GROUP_CONCAT", "ARRAY_AGG", "LISTAGG", "COUNT_IF", "COUNTIF", "LOGICAL_AND", "LOGICAL_OR", "MEDIAN",
+              "GROUPARRAY", "BIT_AND", "BIT_OR", "BIT_XOR", "APPROX_COUNT_DISTINCT", "STDEV", "STDEVP", "VAR", "VARP", "ARG_MIN", "ARG_MAX", "ANY", "UNIQ",
+              "CORR", "COVAR_POP"]
+AGG_LO, AGG_HI = 2, 40
+assert len(AGGREGATES) == AGG_HI - AGG_LO + 1
+
+
 class Interner:
     def __init__(self):
         self.ids = {"CONCAT": 1}      # Model.DialectFeat.f_concat = 1
         self.names = {1: "CONCAT"}
+        for i, a in enumerate(AGGREGATES):
+            self.ids[a] = AGG_LO + i
+            self.names[AGG_LO + i] = a
+        self.next = AGG_HI + 1
 
     def id(self, s):
         if s not in self.ids:
-            n = len(self.ids) + 1
+            n = self.next
+            self.next += 1
             self.ids[s] = n
             self.names[n] = s
         return self.ids[s]
@@ -211,13 +226,33 @@ class Conv:
         part = self.exprs(w.get("partition_by") or [])
         order = [self.expr(o["expr"]) for o in (w.get("order_by") or [])]
         fr = w.get("window_frame")
+        frame = None
         if fr:
-            for b in (fr.get("start_bound"), fr.get("end_bound")):
-                if isinstance(b, dict):
-                    for kk, vv in b.items():
-                        if vv is not None:
-                            args.append(self.expr(vv))
-        return ("win", f, args, part, order)
+            units = {"Rows": 1, "Range": 2, "Groups": 3}.get(fr.get("units"))
+            if units is None:
+                raise Unmodelled("WindowFrame.units %r" % fr.get("units"))
+            sb = self.frame_bound(fr.get("start_bound"))
+            eb = self.frame_bound(fr.get("end_bound")) if fr.get("end_bound") is not None else None
+            frame = (units, sb, eb)
+        return ("win", f, args, part, order, frame)
+
+    def frame_bound(self, b):
+        """-> ("cur",) | ("prec", n | None) | ("fol", n | None); n a non-negative integer literal, None = UNBOUNDED"""
+        if b == "CurrentRow":
+            return ("cur",)
+        k, v = _only(b, "WindowFrameBound")
+        if k not in ("Preceding", "Following"):
+            raise Unmodelled("WindowFrameBound." + k)
+        n = None
+        if v is not None:
+            try:
+                num = v["Value"]["value"]["Number"][0]
+                n = int(num)
+            except Exception:
+                raise Unmodelled("WindowFrameBound offset %r" % str(v)[:60])
+            if n < 0:
+                raise Unmodelled("WindowFrameBound negative offset")
+        return ("prec" if k == "Preceding" else "fol", n)
 
     # ---- queries
     def query(self, j):
@@ -444,10 +479,22 @@ def coq_expr(e):
     if k == "app":
         return "(EApp %d %s)" % (e[1], coq_exprs(e[2]))
     if k == "win":
-        return "(EWin %d %s %s %s)" % (e[1], coq_exprs(e[2]), coq_exprs(e[3]), coq_exprs(e[4]))
+        return "(EWin %d %s %s %s %s)" % (e[1], coq_exprs(e[2]), coq_exprs(e[3]), coq_exprs(e[4]), coq_frame(e[5]))
     if k == "sub":
         return "(ESub %s)" % coq_query(e[1])
     raise ValueError(k)
+
+
+def coq_bound(b):
+    if b[0] == "cur":
+        return "WCur"
+    return "(%s %s)" % ("WPrec" if b[0] == "prec" else "WFol", _opt(b[1]))
+
+
+def coq_frame(fr):
+    if fr is None:
+        return "WNone"
+    return "(WFrame %d %s %s)" % (fr[0], coq_bound(fr[1]), "None" if fr[2] is None else "(Some %s)" % coq_bound(fr[2]))
 
 
 def coq_exprs(xs):
@@ -817,7 +864,246 @@ def diag_text(d, I):
             3: lambda: "column %r does not resolve in %s" % (n(b), CLAUSES[a]), 4: lambda: "%s.%s does not resolve in %s" % (n(b), n(c), CLAUSES[a]),
             5: lambda: "%s.* names no FROM item (%s)" % (n(b), CLAUSES[a]), 6: lambda: "duplicate FROM alias %r" % n(a), 7: lambda: "empty projection",
             8: lambda: "set operation arity %d vs %d" % (a, b), 9: lambda: "* without FROM", 10: lambda: "%s.* names no FROM item" % n(a),
-            11: lambda: "excluded column %r not exposed" % n(b), 12: lambda: "duplicate CTE name %r" % n(a)}[k]()
+            11: lambda: "excluded column %r not exposed" % n(b), 12: lambda: "duplicate CTE name %r" % n(a),
+            21: lambda: "column %r is ambiguous in %s" % (n(b), CLAUSES[a]), 22: lambda: "%s.%s is ambiguous in %s (the relation has two columns of that name)" % (n(b), n(c), CLAUSES[a]),
+            23: lambda: "window frame (%s) is not valid: %s" % ({1: "ROWS", 2: "RANGE", 3: "GROUPS"}.get(a, a), FRAME_WHY.get(b, b)),
+            24: lambda: "column %s%s in %s of an aggregate SELECT is neither grouped nor inside an aggregate" % ((n(b) + ".") if b else "", n(c), CLAUSES[a]),
+            25: lambda: "%s in the select list of an aggregate SELECT is not grouped" % ((n(a) + ".*") if a else "*")}[k]()
+
+
+FRAME_WHY = {1: "starts at UNBOUNDED FOLLOWING", 2: "ends at UNBOUNDED PRECEDING", 3: "its end lies before its start", 4: "RANGE with an offset bound needs exactly one ORDER BY key"}
+
+
+# ------------------------------------------------------------------------------------------------ mirror of Model/SqlScopeX.v
+
+XSTRICT = {"bare_agg": False}
+
+
+def coq_xprof(xp):
+    return "(mkXProf %s)" % _b(xp["bare_agg"])
+
+
+def is_agg(f):
+    return AGG_LO <= f <= AGG_HI
+
+
+def ha_expr(e):
+    k = e[0]
+    if k == "app":
+        return is_agg(e[1]) or any(ha_expr(x) for x in e[2])
+    if k == "win":
+        return any(ha_expr(x) for x in e[2] + e[3] + e[4])
+    return False
+
+
+def fc_expr(e):
+    k = e[0]
+    if k == "col":
+        return [(e[1], e[2])]
+    if k == "app":
+        return [] if is_agg(e[1]) else fc_exprs(e[2])
+    if k == "win":
+        return fc_exprs(e[2]) + fc_exprs(e[3]) + fc_exprs(e[4])
+    return []
+
+
+def fc_exprs(xs):
+    out = []
+    for e in xs:
+        out += fc_expr(e)
+    return out
+
+
+def kc_expr(e):
+    k = e[0]
+    if k == "col":
+        return [(e[1], e[2])]
+    if k == "app":
+        return kc_exprs(e[2])
+    if k == "win":
+        return kc_exprs(e[2]) + kc_exprs(e[3]) + kc_exprs(e[4])
+    return []
+
+
+def kc_exprs(xs):
+    out = []
+    for e in xs:
+        out += kc_expr(e)
+    return out
+
+
+def ks_exprs(xs):
+    return [e[1] for e in xs if e[0] == "star"]
+
+
+def oname_eq(a, b):
+    return a is None or b is None or a == b
+
+
+def key_match(kc, ks, q, c):
+    return any(k[1] == c and oname_eq(k[0], q) for k in kc) or any(oname_eq(s_, q) for s_ in ks)
+
+
+def star_match(ks, q):
+    return any(s_ is None or q == 0 or s_ == q for s_ in ks)
+
+
+def agg_select(items, g, h):
+    return bool(g) or any(it[0] == "iexpr" and ha_expr(it[1]) for it in items) or any(ha_expr(e) for e in h)
+
+
+def frame_count(fr, c):
+    return sum(list(r[0]).count(c) for _, r in fr)
+
+
+def bare_count(sc, c):
+    for fr in sc:
+        if frame_exposes(fr, c):
+            return frame_count(fr, c)
+    return 0
+
+
+def qual_count(sc, q, c):
+    for fr in sc:
+        r = find_alias(fr, q)
+        if r is not None:
+            return list(r[0]).count(c)
+    return 0
+
+
+def bound_has_offset(b):
+    return b[0] in ("prec", "fol") and b[1] is not None
+
+
+def frame_rules(units, s_, e_, nord):
+    """-> the first broken rule (1..4) or 0"""
+    e2 = e_ if e_ is not None else ("cur",)
+    if s_ == ("fol", None):
+        return 1
+    if e2 == ("prec", None):
+        return 2
+    if (s_[0] == "cur" and e2[0] == "prec") or (s_[0] == "fol" and e2[0] in ("prec", "cur")):
+        return 3
+    if units == 2 and (bound_has_offset(s_) or bound_has_offset(e2)) and nord != 1:
+        return 4
+    return 0
+
+
+def x_expr(P, te, sc, al, cl, e):
+    k = e[0]
+    if k == "col":
+        return [("XAmbBare", sc, al, cl, e[2])] if e[1] is None else [("XAmbQual", sc, cl, e[1], e[2])]
+    if k in ("lit", "star"):
+        return []
+    if k == "app":
+        return x_exprs(P, te, sc, al, cl, e[2])
+    if k == "win":
+        out = x_exprs(P, te, sc, al, cl, e[2]) + x_exprs(P, te, sc, al, cl, e[3]) + x_exprs(P, te, sc, al, cl, e[4])
+        if e[5] is not None:
+            out.append(("XWFrame", e[5][0], e[5][1], e[5][2], len(e[4])))
+        return out
+    return x_query(P, hide_self(te), sc, e[1])
+
+
+def x_exprs(P, te, sc, al, cl, xs):
+    out = []
+    for e in xs:
+        out += x_expr(P, te, sc, al, cl, e)
+    return out
+
+
+def x_okeys(P, te, sc, outs, xs):
+    out = []
+    for e in xs:
+        if e[0] == "col" and e[1] is None:
+            out.append(("XAmbBare", sc, outs, 5, e[2]))
+        else:
+            out += x_expr(P, te, sc, outs if P["al_order_nested"] else [], 5, e)
+    return out
+
+
+def x_query(P, te, sc, q):
+    _, rc, ctes, body, order, _lim = q
+    out = []
+    te1 = te
+    for n, cq in ctes:
+        r = out_query(te1, cq)
+        out += x_query(P, ([(n, r, "V")] + te1) if rc else te1, [], cq)
+        te1 = [(n, r, "N")] + te1
+    te2 = env_ctes(te, ctes)
+    out += x_setexpr(P, te2, sc, body)
+    outs = list(out_setexpr(te2, body)[0])
+    out += x_okeys(P, te2, order_scope(te2, sc, body), outs, order)
+    if body[0] == "select" and agg_select(body[3], body[6], body[7]):
+        kc, ks = kc_exprs(body[6]), ks_exprs(body[6])
+        out += [("XGrouped", kc, ks, outs, 5, q_, c_) for q_, c_ in fc_exprs(order)]
+    return out
+
+
+def x_setexpr(P, te, sc, s):
+    if s[0] == "select":
+        _, _dk, don, items, trefs, w, g, h = s
+        fr = from_frame(te, trefs)
+        sc2 = [fr] + sc
+        als = item_aliases(items)
+        out = []
+        for t in trefs:
+            if t[0] != "ttable":
+                out += x_query(P, hide_self(te), [], t[2])
+            out += x_exprs(P, te, sc2, [], 6, t[4])
+        for it in items:
+            if it[0] == "iexpr":
+                out += x_expr(P, te, sc2, [], 1, it[1])
+        out += x_exprs(P, te, sc2, [], 7, don)
+        out += x_exprs(P, te, sc2, als if P["al_where"] else [], 2, w)
+        out += x_exprs(P, te, sc2, als if P["al_group"] else [], 3, g)
+        out += x_exprs(P, te, sc2, als if P["al_having"] else [], 4, h)
+        if agg_select(items, g, h):
+            kc, ks = kc_exprs(g), ks_exprs(g)
+            for it in items:
+                if it[0] == "iexpr":
+                    out += [("XGrouped", kc, ks, [], 1, q_, c_) for q_, c_ in fc_expr(it[1])]
+                else:
+                    out.append(("XGroupedWild", ks, it[1]))
+            out += [("XGrouped", kc, ks, als if P["al_having"] else [], 4, q_, c_) for q_, c_ in fc_exprs(h)]
+        return out
+    if s[0] == "setop":
+        return x_setexpr(P, te, sc, s[3]) + x_setexpr(P, te, sc, s[4])
+    return x_query(P, te, sc, s[1])
+
+
+def xobl_ok(XP, o):
+    k = o[0]
+    if k == "XAmbBare":
+        return o[4] in o[2] or bare_count(o[1], o[4]) <= 1
+    if k == "XAmbQual":
+        return qual_count(o[1], o[3], o[4]) <= 1
+    if k == "XWFrame":
+        return frame_rules(o[1], o[2], o[3], o[4]) == 0
+    if k == "XGrouped":
+        return XP["bare_agg"] or key_match(o[1], o[2], o[5], o[6]) or (o[5] is None and o[6] in o[3])
+    if k == "XGroupedWild":
+        return XP["bare_agg"] or star_match(o[1], o[2])
+    raise ValueError(k)
+
+
+def xdiag_code(o):
+    k = o[0]
+    if k == "XAmbBare":
+        return (21, o[3], o[4], 0)
+    if k == "XAmbQual":
+        return (22, o[2], o[3], o[4])
+    if k == "XWFrame":
+        return (23, o[1], frame_rules(o[1], o[2], o[3], o[4]) or 4, 0)
+    if k == "XGrouped":
+        return (24, o[4], o[5] or 0, o[6])
+    if k == "XGroupedWild":
+        return (25, o[2], 0, 0)
+    raise ValueError(k)
+
+
+def xdiag_codes(XP, P, te, q):
+    return [xdiag_code(o) for o in x_query(P, te, [], q) if not xobl_ok(XP, o)]
 
 
 # ------------------------------------------------------------------------------------------------ mirror of Model/DialectFeat.v
